@@ -27,6 +27,7 @@ def check(tree, rep, tier='quick', seed=0):
     R.k32_solve_single_exit(core, rep)   # an answered input reaches its lines: the loop is never left with met dependencies undrained
     R.k11i_strict_decoding(core, rep)    # no byte of the input file is dropped or replaced before the validators see the text
     R.k35_store_loaded_eagerly(core, rep)
+    R.k38_solver_object(core, rep)       # the solver's input registry is its own: it never validates with specifications left by another solve
     R.k11j_validator_and_converter_agree(core, rep)
     R.k11e_parser_options(core, rep)     # every parser the package builds for an input file keeps the text as written (no interpolation, no defaults)
     from .c17 import input_options_rule, get_catalogue
